@@ -196,6 +196,35 @@ func nativeOf(cl adapt.Client) nativeClient {
 // scenario: item {a:"1", b:"2"}; values :b=:a=:bb="zz" so every built-in condition of the pool is
 // FALSE on the item ('a = :b AND b = :a' too); callbacks return TRUE. Updates: built-in SET x = :y
 // sets x; the callback sets attribute "cb" to its own id instead.
+// c20Disturb selects what happens to the tables between the registration and each request (cases of one worker
+// run one after the other, parallel cases leave it at 0): dispatch must survive everything that is not a
+// re-registration - rejected and successful table changes, clears, failed and failing calls
+var c20Disturb = 0
+
+var c20Disturbances = []string{"none", "rejected-updatetable", "rejected-multi-change-updatetable", "index-created-and-dropped", "cleartable", "addindex-helper", "failure-on-call-off", "rejected-put", "describe"}
+
+func c20DisturbOps(kind int, table string, item val.Item) []adapt.Op {
+	switch c20Disturbances[kind] {
+	case "rejected-updatetable":
+		return []adapt.Op{{Kind: adapt.OpUpdateTable, Table: table, Chg: []adapt.IndexChange{{Delete: "nosuchindex"}}}}
+	case "rejected-multi-change-updatetable":
+		return []adapt.Op{{Kind: adapt.OpUpdateTable, Table: table, Chg: []adapt.IndexChange{{Create: &adapt.IndexSpec{Name: "gsiq", Hash: "b"}}, {Delete: "nosuchindex"}}}}
+	case "index-created-and-dropped":
+		return []adapt.Op{{Kind: adapt.OpUpdateTable, Table: table, Chg: []adapt.IndexChange{{Create: &adapt.IndexSpec{Name: "gsiq", Hash: "b"}}}}, {Kind: adapt.OpUpdateTable, Table: table, Chg: []adapt.IndexChange{{Delete: "gsiq"}}}}
+	case "cleartable":
+		return []adapt.Op{{Kind: adapt.OpClearTable, Table: table}, {Kind: adapt.OpPut, Table: table, Item: item}}
+	case "addindex-helper":
+		return []adapt.Op{{Kind: adapt.OpAddIndex, Table: table, Ix: &adapt.IndexSpec{Name: "gsih", Hash: "a"}}}
+	case "failure-on-call-off":
+		return []adapt.Op{{Kind: adapt.OpEmulate, Fail: "internal_server"}, {Kind: adapt.OpGet, Table: table, Key: val.Item{"h": val.Str("k")}}, {Kind: adapt.OpEmulate, Fail: "none"}, {Kind: adapt.OpForceOn}, {Kind: adapt.OpScan, Table: table}, {Kind: adapt.OpForceOff}}
+	case "rejected-put":
+		return []adapt.Op{{Kind: adapt.OpPut, Table: table, Item: val.Item{"nokey": val.Str("x")}}, {Kind: adapt.OpUpdate, Table: table, Key: val.Item{"h": val.Num("1")}, Update: "SET q = :q", Values: val.Item{":q": val.Str("q")}}}
+	case "describe":
+		return []adapt.Op{{Kind: adapt.OpDescribe, Table: table}}
+	}
+	return nil
+}
+
 func (p *c20) runSeq(x *res, adapter string, regs []int, reqs []c20Req, nativeOn bool, installAfterCreate bool, ctx *runner.Ctx) {
 	cl := adapt.New(adapter)
 	nc := nativeOf(cl)
@@ -267,6 +296,14 @@ func (p *c20) runSeq(x *res, adapter string, regs []int, reqs []c20Req, nativeOn
 			_ = saveOn
 			cl.Do(adapt.Op{Kind: adapt.OpDelete, Table: s.Name, Key: val.Item{"h": val.Str("k")}})
 			cl.Do(adapt.Op{Kind: adapt.OpPut, Table: s.Name, Item: item})
+			if c20Disturb > 0 && (ri == 0 || c20Disturb%2 == 1) {
+				for _, dop := range c20DisturbOps(c20Disturb, s.Name, item) {
+					cl.Do(dop)
+				}
+			}
+		}
+		if c20Disturb > 0 {
+			x.set("disturbances", c20Disturbances[c20Disturb])
 		}
 		func() {
 			for k := range ran {
@@ -473,7 +510,14 @@ func (p *c20) RunCase(ctx *runner.Ctx) runner.CaseResult {
 				if sq[len(sq)-1].text == "" {
 					continue
 				}
+				// most sequences run undisturbed; every third one has something happen to the tables between
+				// the registration and the requests
+				c20Disturb = 0
+				if (si+ri+variant)%3 == 1 {
+					c20Disturb = 1 + (si*7+ri*3+variant)%(len(c20Disturbances)-1)
+				}
 				p.runSeq(x, adapter, regs, sq, nativeOn, after, ctx)
+				c20Disturb = 0
 			}
 		}
 	}
